@@ -231,6 +231,16 @@ func runGuardedRules(p *Program, id string) ([]*Gen, []string) {
 							continue
 						}
 					}
+					if wa := kv["when-arg"]; wa != "" {
+						// only calls whose N-th argument has this shape (when-arg=N:PATTERN)
+						parts := strings.SplitN(wa, ":", 2)
+						var an int
+						fmt.Sscanf(parts[0], "%d", &an)
+						c, isCall := in.(*ssa.Call)
+						if !isCall || len(parts) != 2 || an >= len(c.Call.Args) || !pathMatches(valuePath(c.Call.Args[an]), parts[1]) {
+							continue
+						}
+					}
 					if ou := kv["only-under"]; ou != "" {
 						// `only-under=FACT`: the rule speaks about the sites inside that branch only
 						under := false
@@ -448,6 +458,8 @@ func runPairedRules(p *Program, id string) ([]*Gen, []string) {
 func runDecidesRules(p *Program, id string) ([]*Gen, []string) {
 	var gens []*Gen
 	var errs []string
+	coneThroughCallees = true
+	defer func() { coneThroughCallees = false }()
 	for _, d := range p.CS.Dirs {
 		if d.Kind != "decides" {
 			continue
